@@ -155,15 +155,59 @@ func sprintf(fr *frame, format value, args []value) value {
 	if !ok {
 		return fr.i.ex.fresh("fmt", sStr, 0)
 	}
+	anySym := false
 	nat := make([]interface{}, len(args))
 	for i, a := range args {
 		o, ok := formatArg(fr, a)
 		if !ok {
-			return fr.i.ex.fresh("fmt", sStr, 0)
+			anySym = true
+			continue
 		}
 		nat[i] = o
 	}
-	return fmt.Sprintf(f, nat...)
+	if !anySym {
+		return fmt.Sprintf(f, nat...)
+	}
+	// symbolic arguments: %s / %v of a symbolic string is the string itself; everything else is
+	// formatted natively piecewise and concatenated
+	var acc value = ""
+	ai := 0
+	strT := types.Typ[types.String]
+	for k := 0; k < len(f); k++ {
+		c := f[k]
+		if c != '%' || k+1 >= len(f) {
+			acc = binop(token.ADD, strT, acc, string(c))
+			continue
+		}
+		k++
+		verb := f[k]
+		if verb == '%' {
+			acc = binop(token.ADD, strT, acc, "%")
+			continue
+		}
+		if ai >= len(args) {
+			return fr.i.ex.fresh("fmt", sStr, 0)
+		}
+		a := args[ai]
+		if it, ok := a.(iface); ok {
+			a = it.v
+		}
+		if s, ok := a.(*sym); ok {
+			if s.k != sStr || (verb != 's' && verb != 'v') {
+				return fr.i.ex.fresh("fmt", sStr, 0)
+			}
+			acc = binop(token.ADD, strT, acc, s)
+		} else {
+			if nat[ai] == nil {
+				if o, ok := formatArg(fr, args[ai]); ok {
+					nat[ai] = o
+				}
+			}
+			acc = binop(token.ADD, strT, acc, fmt.Sprintf("%"+string(verb), nat[ai]))
+		}
+		ai++
+	}
+	return acc
 }
 
 func mkError(fr *frame, msg value) value {
@@ -590,6 +634,42 @@ func init() {
 	})
 	reg("math/bits.Len64", intrinsics["math/bits.Len"])
 
+	// ---------------- reflect (minimal: ValueOf(x).Kind()) ----------------
+	reg("reflect.ValueOf", func(fr *frame, a []value) value {
+		return structure{a[0], (*value)(nil), uintptr(0)}
+	})
+	reg("(reflect.Value).Kind", func(fr *frame, a []value) value {
+		it, ok := a[0].(structure)[0].(iface)
+		if !ok || it.t == nil {
+			return uint(0)
+		}
+		switch t := it.t.Underlying().(type) {
+		case *types.Basic:
+			switch {
+			case t.Info()&types.IsString != 0:
+				return uint(24)
+			case t.Info()&types.IsBoolean != 0:
+				return uint(1)
+			case t.Kind() == types.Int:
+				return uint(2)
+			case t.Kind() == types.Int64:
+				return uint(6)
+			case t.Kind() == types.Float64:
+				return uint(14)
+			}
+			return uint(2)
+		case *types.Slice:
+			return uint(23)
+		case *types.Map:
+			return uint(21)
+		case *types.Pointer:
+			return uint(22)
+		case *types.Struct:
+			return uint(25)
+		}
+		return uint(0)
+	})
+
 	// ---------------- os / misc ----------------
 	reg("os.Getenv", func(fr *frame, a []value) value { return "" })
 	reg("runtime.Gosched", func(fr *frame, a []value) value { fr.ex().yield(); return nil })
@@ -857,6 +937,9 @@ func init() {
 		}
 		return ""
 	})
+	reg("verifCallArgSource", func(fr *frame, a []value) value {
+		return staticCallArgSource(fr.i.prog, name(fr, a[0]), name(fr, a[1]), int(asInt64(a[2])))
+	})
 	reg("verifCallConstArg", func(fr *frame, a []value) value {
 		return staticCallConstArg(fr.i.prog, name(fr, a[0]), name(fr, a[1]), int(asInt64(a[2])))
 	})
@@ -1015,6 +1098,64 @@ func staticCallConstArg(prog *ssa.Program, pkgPath, callee string, idx int) stri
 						res = "<conflicting>"
 					} else if res == "" {
 						res = v
+					}
+				}
+			}
+		}
+		for _, an := range f.AnonFuncs {
+			visit(an)
+		}
+	}
+	for _, m := range pkg.Members {
+		if f, ok := m.(*ssa.Function); ok {
+			visit(f)
+		}
+	}
+	return res
+}
+
+// staticCallArgSource describes where argument `idx` of every call to `callee` in package pkgPath
+// comes from: "callee(const args)" if it is the result of a static call, "const:<v>" for constants.
+func staticCallArgSource(prog *ssa.Program, pkgPath, callee string, idx int) string {
+	pkg := prog.ImportedPackage(pkgPath)
+	if pkg == nil {
+		return ""
+	}
+	res := ""
+	describe := func(v ssa.Value) string {
+		switch x := v.(type) {
+		case *ssa.Const:
+			return "const:" + x.Value.String()
+		case *ssa.Call:
+			if sc := x.Call.StaticCallee(); sc != nil {
+				var cs []string
+				for _, a := range x.Call.Args {
+					if c, ok := a.(*ssa.Const); ok && c.Value != nil {
+						cs = append(cs, c.Value.String())
+					}
+				}
+				return sc.String() + "(" + strings.Join(cs, ",") + ")"
+			}
+		}
+		return "<other>"
+	}
+	seen := map[*ssa.Function]bool{}
+	var visit func(f *ssa.Function)
+	visit = func(f *ssa.Function) {
+		if f == nil || seen[f] {
+			return
+		}
+		seen[f] = true
+		for _, b := range f.Blocks {
+			for _, in := range b.Instrs {
+				if c, ok := in.(*ssa.Call); ok {
+					if sc := c.Call.StaticCallee(); sc != nil && sc.String() == callee && idx < len(c.Call.Args) {
+						d := describe(c.Call.Args[idx])
+						if res != "" && res != d {
+							res = "<conflicting>"
+						} else if res == "" {
+							res = d
+						}
 					}
 				}
 			}
